@@ -6,7 +6,7 @@
    from the current one at the PENDING properties (existentially, per tree); each walk marks every evaluator-driven leaf that reads
    its property (link invariant: every such leaf is subscribed there), after which the property is no longer pending. *)
 From KDB Require Import Util UtilProofs PropDefs PropFlags PropLink PropLinkBasics PropLinkOps PropLinkTheorems PropSim.
-From KDB Require PropAbs PropAbsProofs PropAbsLazy PropProofs.
+From KDB Require PropAbs PropAbsProofs PropAbsLazy PropProofs PropReg PropGrow PropSimLazy.
 Module A := PropAbs.
 Module AP := PropAbsProofs.
 Module L := PropAbsLazy.
@@ -449,5 +449,304 @@ Section MixedLazy.
       exists t, lg. rewrite Ev'. reflexivity.
     - inversion H; subst w'. split; [exact (pinv_views _ _ V1 Hinv)|]. split; [exact (NOACT_views _ _ V1 Hna)|]. split; [exact HS1|]. split; [exact HM1|].
       split; [exact V1|]. exists t, lg. rewrite Ev'. reflexivity.
+  Qed.
+  (* ================================================================================================================== *)
+  (* the caches are right in every world a growing MIXED network reaches *)
+  Definition ML (w : world) : Prop := pinv w /\ NOACT w /\ LSIMP w /\ MS w.
+
+  Lemma val_leaves_ext e e' t : (forall y lid, In (y, lid) (A.leaves t) -> e' y = e y) -> A.val e' t = A.val e t.
+  Proof. intros E. destruct t; cbn; auto. apply (E p lid). left. reflexivity. Qed.
+  Lemma sound_leaves_ext e e' : forall t, (forall y lid, In (y, lid) (A.leaves t) -> e' y = e y) -> L.sound F1 F2 F3 e' t -> L.sound F1 F2 F3 e t.
+  Proof.
+    induction t as [z|p i d|f d c k IH|f d c k1 IH1 k2 IH2|f d c k1 IH1 k2 IH2 k3 IH3]; cbn [L.sound A.leaves]; auto.
+    - intros E (Sk & H). split; [auto|]. intros Hd. destruct (H Hd) as (Ck & ->). split; [exact Ck|]. rewrite (val_leaves_ext e e' k E). reflexivity.
+    - intros E (S1 & S2 & H).
+      assert (E1 : forall y lid, In (y, lid) (A.leaves k1) -> e' y = e y) by (intros y lid Hi; apply (E y lid); apply in_or_app; left; exact Hi).
+      assert (E2 : forall y lid, In (y, lid) (A.leaves k2) -> e' y = e y) by (intros y lid Hi; apply (E y lid); apply in_or_app; right; exact Hi).
+      split; [auto|split; [auto|]]. intros Hd. destruct (H Hd) as (C1 & C2 & ->). repeat split; auto.
+      rewrite (val_leaves_ext e e' k1 E1), (val_leaves_ext e e' k2 E2). reflexivity.
+    - intros E (S1 & S2 & S3 & H).
+      assert (E1 : forall y lid, In (y, lid) (A.leaves k1) -> e' y = e y) by (intros y lid Hi; apply (E y lid); apply in_or_app; left; exact Hi).
+      assert (E2 : forall y lid, In (y, lid) (A.leaves k2) -> e' y = e y) by (intros y lid Hi; apply (E y lid); apply in_or_app; right; apply in_or_app; left; exact Hi).
+      assert (E3 : forall y lid, In (y, lid) (A.leaves k3) -> e' y = e y) by (intros y lid Hi; apply (E y lid); apply in_or_app; right; apply in_or_app; right; exact Hi).
+      split; [auto|split; [auto|split; [auto|]]]. intros Hd. destruct (H Hd) as (C1 & C2 & C3 & ->). repeat split; auto.
+      rewrite (val_leaves_ext e e' k1 E1), (val_leaves_ext e e' k2 E2), (val_leaves_ext e e' k3 E3). reflexivity.
+  Qed.
+
+  (* the leaves of an evaluator-driven tree refer to existing properties *)
+  Lemma ltree_leaf_exists w b T y lid : pinv w -> ltree w b T -> In (y, lid) (A.leaves T) -> lookup (w_props w) y <> None.
+  Proof.
+    intros Hinv (x & Hx & _ & Ha) Hi. destruct (abs_leaf_in _ _ _ _ Ha Hi) as (lf & Hlf & Htg & _).
+    destruct (leaf_target_exists w b x lf y Hinv Hx Hlf Htg) as (pr & Hp & _). rewrite Hp. discriminate.
+  Qed.
+
+  (* worlds with the same bindings whose values agree wherever an existing property is concerned *)
+  Lemma ML_lazy_same w w' :
+    ML w -> (forall b, get_bind w' b = get_bind w b) -> (forall y, lookup (w_props w) y <> None -> envof w' y = envof w y) ->
+    LSIMP w' /\ MS w'.
+  Proof.
+    intros (Hinv & _ & HS & HM) G E. split.
+    - intros b x Hx He. rewrite G in Hx. exact (HS b x Hx He).
+    - intros b T (x & Hx & He & Ha). rewrite G in Hx. assert (HT : ltree w b T) by (exists x; auto).
+      apply (sound_leaves_ext (envof w') (envof w)); [|exact (HM b T HT)].
+      intros y lid Hi. symmetry. apply E. exact (ltree_leaf_exists w b T y lid Hinv HT Hi).
+  Qed.
+
+  Lemma ML_new_prop w p v : ML w -> lookup (w_props w) p = None -> ML (set_props w (bind_key (w_props w) p (prop_new v))).
+  Proof.
+    intros HML Hp. pose proof HML as (Hinv & Hna & _). set (w' := set_props w _).
+    destruct (ML_lazy_same w w' HML (fun _ => eq_refl)) as (HS' & HM').
+    { intros y Hy. unfold envof, w'; cbn [set_props w_props]. rewrite lookup_bind. destruct (Nat.eqb_spec y p) as [->|]; [contradiction|reflexivity]. }
+    split; [apply pinv_new_prop; assumption|]. split; [|split; assumption].
+    intros t pos ser label act Hs. exact (Hna t pos ser label act Hs).
+  Qed.
+
+  (* a clean tree whose operator nodes cache their denotation - what building a binding produces - is sound *)
+  Lemma clean_consis_sound e q : forall t, A.clean t -> A.consis F1 F2 F3 e [] q t -> L.sound F1 F2 F3 e t.
+  Proof.
+    assert (NP : forall t, A.nopend [] q t) by (intros t p lid _ []).
+    induction t as [z|p i d|f d c k IH|f d c k1 IH1 k2 IH2|f d c k1 IH1 k2 IH2 k3 IH3]; cbn [A.clean A.consis L.sound]; auto.
+    - intros (Hd & Ck) (Xk & Hc). split; [auto|]. intros _. split; [exact Ck|]. rewrite (Hc (NP _)). cbn [A.den].
+      rewrite (AP.val_den F1 F2 F3 e [] q k Ck Xk (NP k)). reflexivity.
+    - intros (Hd & C1 & C2) (X1 & X2 & Hc). split; [auto|split; [auto|]]. intros _. split; [exact C1|split; [exact C2|]]. rewrite (Hc (NP _)). cbn [A.den].
+      rewrite (AP.val_den F1 F2 F3 e [] q k1 C1 X1 (NP k1)), (AP.val_den F1 F2 F3 e [] q k2 C2 X2 (NP k2)). reflexivity.
+    - intros (Hd & C1 & C2 & C3) (X1 & X2 & X3 & Hc). split; [auto|split; [auto|split; [auto|]]]. intros _. split; [exact C1|split; [exact C2|split; [exact C3|]]].
+      rewrite (Hc (NP _)). cbn [A.den].
+      rewrite (AP.val_den F1 F2 F3 e [] q k1 C1 X1 (NP k1)), (AP.val_den F1 F2 F3 e [] q k2 C2 X2 (NP k2)), (AP.val_den F1 F2 F3 e [] q k3 C3 X3 (NP k3)). reflexivity.
+  Qed.
+  Lemma make_binding_old_binds w e m w1 b : make_binding fn rtl w e m = inl (w1, b) ->
+    b = length (w_binds w) /\ forall c, c <> b -> get_bind w1 c = get_bind w c.
+  Proof.
+    unfold make_binding. destruct (match m with MImmediate => Some 0 | MEvaluator ev => lookup (w_bevs w) ev end) as [ep|]; [|discriminate].
+    destruct (nth_error (w_evps w) ep) as [st|]; [|discriminate].
+    destruct (build fn rtl w (length (w_binds w)) 0 e) as [[[[w0 root] n1]|]|ex] eqn:Hb; try discriminate.
+    intros H; inversion H; subst w1 b; clear H. destruct (PropReg.build_binds fn rtl _ _ _ _ _ _ _ Hb) as [_ B1].
+    split; [reflexivity|]. intros c Hc. unfold get_bind; cbn [set_binds w_binds]. rewrite B1.
+    destruct (Nat.lt_ge_cases c (length (w_binds w))) as [Hlt|Hge]; [rewrite nth_error_app1 by exact Hlt; reflexivity|].
+    rewrite nth_error_app2 by exact Hge. destruct (c - length (w_binds w)) as [|n] eqn:En; [lia|].
+    replace (nth_error (w_binds w) c) with (@None binding) by (symmetry; apply nth_error_None; lia). destruct n; reflexivity.
+  Qed.
+
+  (* p = makeBinding / makeBoundProperty(expression) for a fresh p, immediately or through an explicit evaluator *)
+  Lemma ML_bind_fresh fuel w p e m w' :
+    ML w -> NOEMIT w -> lookup (w_props w) p = None ->
+    (match m with MImmediate => True | MEvaluator e0 => exists id, lookup (w_bevs w) e0 = Some id /\ id <> 0 end) ->
+    step1 fn rtl fuel w (PBind p e m) = (w', None) -> LSIMP w' /\ MS w' /\ NOACT w'.
+  Proof.
+    intros HML HNE Hp Hmode H. pose proof HML as (Hinv & Hna & HS & HM). cbn [step1] in H.
+    destruct (make_binding fn rtl w e m) as [[w1 b]|x] eqn:Hm; [|discriminate H].
+    destruct (PropGrow.make_binding_grow_m fn rtl _ _ _ _ _ Hinv Hm) as (G & Eb & xb & Hxb & Hevp & Htg & Htree).
+    destruct (make_binding_pinv _ _ _ _ _ _ _ Hinv Hm) as (Hinv1 & _ & Hheld).
+    destruct (make_binding_old_binds _ _ _ _ _ Hm) as (_ & Gold).
+    assert (Hlazy : b_evp xb = 0 \/ b_evp xb <> 0 /\ m <> MImmediate).
+    { destruct m as [|e0]; [left; exact Hevp|]. right. destruct Hmode as (id & Hid & Hne). rewrite Hid in Hevp. inversion Hevp; subst. split; [exact Hne|discriminate]. }
+    pose proof G as (_ & _ & Gv & _ & Gobs).
+    assert (Vp : values w1 p = None) by (rewrite Gv; unfold values; rewrite Hp; reflexivity).
+    assert (Hp1 : lookup (w_props w1) p = None) by (unfold values in Vp; destruct (lookup (w_props w1) p); [discriminate Vp|reflexivity]).
+    rewrite Hp1 in H.
+    assert (Env1 : forall y, envof w1 y = envof w y).
+    { intros y. pose proof (Gv y) as E. unfold values in E. unfold envof. destruct (lookup (w_props w1) y), (lookup (w_props w) y); cbn in E; congruence. }
+    assert (Hna1 : NOACT w1) by (intros t pos ser label act Hs; exact (Hna t pos ser label act (Gobs t pos ser label act Hs))).
+    (* the new tree *)
+    destruct (Htree (envof w) 0) as (T & HT & Tc & Tx & Tl).
+    { intros y v Hy. unfold values in Hy. unfold envof. destruct (lookup (w_props w) y); cbn in Hy; [congruence|discriminate Hy]. }
+    assert (ST : L.sound F1 F2 F3 (envof w) T) by (apply (clean_consis_sound (envof w) 0); assumption).
+    assert (Tnp : forall y lid, In (y, lid) (A.leaves T) -> y <> p).
+    { intros y lid Hi ->. pose proof (Tl p lid Hi) as E. rewrite Vp in E. discriminate E. }
+    assert (ML1 : LSIMP w1 /\ MS w1).
+    { split.
+      - intros c z Hz Hez. destruct (Nat.eq_dec c b) as [->|Hne]; [rewrite Hxb in Hz; inversion Hz; subst z; rewrite HT; discriminate|].
+        rewrite (Gold c Hne) in Hz. exact (HS c z Hz Hez).
+      - intros c U (z & Hz & Hez & Ha). apply (sound_ext (envof w1) (envof w)); [intros y; symmetry; apply Env1|].
+        destruct (Nat.eq_dec c b) as [->|Hne]; [rewrite Hxb in Hz; inversion Hz; subst z; rewrite HT in Ha; inversion Ha; subst U; exact ST|].
+        rewrite (Gold c Hne) in Hz. apply (HM c U). exists z. auto. }
+    destruct (ML_new_prop w1 p 0%Z (conj Hinv1 (conj Hna1 ML1)) Hp1) as (Hinvn & Hnan & HSn & HMn).
+    set (wn := set_props w1 (bind_key (w_props w1) p (prop_new 0%Z))) in *.
+    unfold assign_binding in H.
+    assert (Hpn : lookup (w_props wn) p = Some (prop_new 0%Z)) by (unfold wn; cbn [set_props w_props]; apply lookup_bind_same).
+    rewrite Hpn in H. cbn [prop_new pr_updater ok] in H. rewrite Hpn in H.
+    assert (Hbn : get_bind wn b = Some xb) by exact Hxb. rewrite Hbn in H.
+    set (w5 := set_props wn (bind_key (w_props wn) p (prop_set_updater (prop_new 0%Z) (Some b)))) in *.
+    set (xb3 := bind_with_target xb (Some p)) in *.
+    set (w6 := put_bind w5 b xb3) in *.
+    destruct (get_bind_lt _ _ _ Hbn) as [Hlt Hal0].
+    assert (Bvb : bview wn b = Some (leaves (b_root xb), None)) by (unfold bview; rewrite Hbn, Htg; reflexivity).
+    assert (HNT : NOTARGET p wn).
+    { intros b' ls E. destruct (pi_tgt _ _ _ _ _ _ _ Hinvn _ _ _ E) as (vv & Ev & Eu). unfold pview in Ev. rewrite Hpn in Ev. assert (vv = psigs_of (prop_new 0%Z)) by congruence. subst vv. discriminate Eu. }
+    assert (Hinv6 : pinv w6).
+    { apply (install_updater wn p (prop_new 0%Z) b xb (leaves (b_root xb))); auto.
+      eapply pinvg_mono; [| | | | | |exact Hinvn]; cbv beta; try (intros z Hz; exact Hz); try (intros z Hz; exact (False_ind _ Hz)). }
+    destruct (eval fn rtl (values w6) (b_root xb)) as [[t r] lg] eqn:Hevl. destruct r as [v|ex]; [|discriminate H].
+    pose proof (leaves_eval fn rtl (values w6) (b_root xb)) as Hl. rewrite Hevl in Hl. cbn [fst] in Hl.
+    assert (Hb6 : get_bind w6 b = Some xb3).
+    { unfold get_bind, w6, put_bind; cbn [set_binds w_binds]. change (w_binds w5) with (w_binds wn). rewrite nth_upd_same by exact Hlt. cbn [xb3 bind_with_target b_alive]. rewrite Hal0. reflexivity. }
+    set (w7 := log_fns lg (put_bind w6 b (bind_with_root xb3 t))) in *.
+    assert (V67 : views_eq w6 w7) by (eapply views_eq_trans; [apply (views_put_root w6 b xb3 t Hb6); exact Hl|apply views_log_fns]).
+    assert (Hinv7 : pinv w7) by (eapply pinv_views; eauto).
+    assert (G7 : forall b', get_bind w7 b' = if Nat.eqb b b' then Some (bind_with_root xb3 t) else get_bind wn b').
+    { intros b'. unfold w7. rewrite get_bind_log_fns, (get_bind_put_root _ _ _ _ _ Hb6). destruct (Nat.eqb_spec b b') as [Ebb|Hne]; [reflexivity|].
+      unfold get_bind, w6, put_bind; cbn [set_binds w_binds]. change (w_binds w5) with (w_binds wn). rewrite nth_upd_other by exact Hne. reflexivity. }
+    assert (L7 : forall q, lookup (w_props w7) q = if Nat.eqb q p then Some (prop_set_updater (prop_new 0%Z) (Some b)) else lookup (w_props wn) q).
+    { intros q. unfold w7. rewrite PropProofs.log_fns_props. change (w_props (put_bind w6 b (bind_with_root xb3 t))) with (w_props w5). unfold w5; cbn [set_props w_props]. apply lookup_bind. }
+    assert (Env7 : forall y, envof w7 y = envof wn y).
+    { intros y. unfold envof. rewrite L7. destruct (Nat.eqb_spec y p) as [->|]; [rewrite Hpn; reflexivity|reflexivity]. }
+    assert (T7 : forall t0, tview w7 t0 = tview wn t0) by (intros t0; destruct V67 as (_ & T67 & _); rewrite T67; reflexivity).
+    assert (Hna7 : NOACT w7) by (intros t0 pos ser label act (sl & fr & al & Hv & Hn); rewrite T7 in Hv; apply (Hnan t0 pos ser label act); exists sl, fr, al; auto).
+    (* the tree after the first evaluation *)
+    assert (Hval6 : forall p0 lid, In (p0, lid) (A.leaves T) -> values w6 p0 = Some (envof w p0)).
+    { intros p0 lid Hi. pose proof (Tl p0 lid Hi) as E. pose proof (Tnp p0 lid Hi) as Hne.
+      unfold values. change (w_props w6) with (w_props w5). unfold w5, wn; cbn [set_props w_props]. rewrite !lookup_bind.
+      destruct (Nat.eqb_spec p0 p); [contradiction|]. exact E. }
+    destruct (sim_eval fn rtl (values w6) (envof w) _ _ _ _ _ HT Hval6 Hevl) as [Et _].
+    rewrite (AP.eval_clean F1 F2 F3 (envof w) T Tc) in Et. cbn [fst] in Et.
+    assert (ML7 : LSIMP w7 /\ MS w7).
+    { split.
+      - intros c z Hz Hez. rewrite G7 in Hz. destruct (Nat.eqb_spec b c) as [<-|Hne]; [|exact (HSn c z Hz Hez)].
+        inversion Hz; subst z. cbn [bind_with_root b_root]. rewrite Et. discriminate.
+      - intros c U (z & Hz & Hez & Ha). apply (sound_ext (envof w7) (envof wn)); [intros y; symmetry; apply Env7|].
+        rewrite G7 in Hz. destruct (Nat.eqb_spec b c) as [<-|Hne]; [|apply (HMn c U); exists z; auto].
+        inversion Hz; subst z. cbn [bind_with_root b_root] in Ha. rewrite Et in Ha. inversion Ha; subst U.
+        apply (sound_leaves_ext (envof wn) (envof w)); [|exact ST].
+        intros y lid Hi. unfold envof, wn; cbn [set_props w_props]. rewrite lookup_bind. destruct (Nat.eqb_spec y p) as [->|]; [destruct (Tnp p lid Hi eq_refl)|].
+        pose proof (Env1 y) as E1. unfold envof in E1. symmetry. exact E1. }
+    destruct ML7 as (HS7 & HM7).
+    destruct (mixed_set_helper_keeps_sound fuel w7 p v w' Hinv7 Hna7 HS7 HM7 H) as (_ & A2 & A3 & A4 & _). auto.
+  Qed.
+  (* an observer that does not act is connected *)
+  Lemma ML_observe fuel w p k label h w' :
+    ML w -> step1 fn rtl fuel w (PObserve p k label h None) = (w', None) -> LSIMP w' /\ MS w' /\ NOACT w'.
+  Proof.
+    intros HML H. pose proof HML as (Hinv & Hna & HS & HM). cbn [step1] in H.
+    destruct (match k with KMoved => true | _ => false end); [discriminate H|].
+    destruct (subscribe w p k (SObs label None)) as [[w1 hd]|] eqn:Hs; [|discriminate H]. inversion H; subst w'. clear H.
+    pose proof (subscribe_ext _ _ _ _ _ _ Hs (pi_twf _ _ _ _ _ _ _ Hinv) (pi_own _ _ _ _ _ _ _ Hinv)) as E.
+    set (w2 := set_obs w1 (bind_key (w_obs w1) h hd)).
+    assert (G : forall b, get_bind w2 b = get_bind w b) by (intros b; unfold get_bind; change (w_binds w2) with (w_binds w1); rewrite (se_binds _ _ _ _ _ _ E); reflexivity).
+    destruct (ML_lazy_same w w2 HML G) as (HS' & HM').
+    { intros y _. pose proof (se_vals _ _ _ _ _ _ E y) as Ev. unfold values in Ev. unfold envof. change (w_props w2) with (w_props w1).
+      destruct (lookup (w_props w1) y), (lookup (w_props w) y); cbn in Ev; congruence. }
+    split; [exact HS'|]. split; [exact HM'|].
+    intros t pos ser lab act Hsl. assert (Hsl1 : slot_at w1 t pos ser (SObs lab act)) by exact Hsl.
+    destruct (se_new _ _ _ _ _ _ E _ _ _ _ Hsl1) as [Ho|(_ & _ & _ & Ex)]; [exact (Hna t pos ser lab act Ho)|]. inversion Ex; reflexivity.
+  Qed.
+
+  (* evaluateAll of an explicit evaluator *)
+  Lemma ML_loop fuel id : id <> 0 -> forall l w w',
+    ML w -> (forall rid b, In (rid, b) l -> b < length (w_binds w) /\ (PropReg.bkey w b = Some (id, rid) \/ PropReg.bkey w b = None)) ->
+    PropSimLazy.evalall_loop fn rtl fuel id l w = (w', None) -> ML w'.
+  Proof.
+    intros Hid. induction l as [|[rid b] r IH]; intros w w' HML HK H; cbn [PropSimLazy.evalall_loop] in H.
+    - inversion H; subst. exact HML.
+    - destruct (match nth_error (w_evps w) id with Some st' => existsb (fun q => Nat.eqb (fst q) rid) (ep_registry st') | None => false end).
+      + destruct (binding_evaluate fn rtl (set_helper fn rtl fuel) w b) as [w1 [ex|]] eqn:Hb; [discriminate H|].
+        pose proof HML as (Hinv & Hna & HS & HM).
+        destruct (get_bind w b) as [x|] eqn:Hgb; [|unfold binding_evaluate in Hb; rewrite Hgb in Hb; discriminate Hb].
+        assert (Hev : b_evp x <> 0).
+        { destruct (HK rid b (or_introl eq_refl)) as (_ & [Hk|Hk]); unfold PropReg.bkey in Hk; rewrite Hgb in Hk; [inversion Hk; subst; exact Hid|discriminate Hk]. }
+        destruct (abs_tree (b_root x)) as [T|] eqn:HT; [|exfalso; exact (HS b x Hgb Hev HT)].
+        destruct (mixed_lazy_evaluate fuel w b x T w1 Hinv Hna HS HM Hgb Hev HT Hb) as (A1 & A2 & A3 & A4 & _).
+        pose proof (PropReg.binding_evaluate_rmono fn rtl _ (PropReg.set_helper_rmono fn rtl fuel) w b) as (_ & R2 & R3 & R4). rewrite Hb in R2, R3, R4. cbn [fst] in R2, R3, R4.
+        apply (IH w1 w' (conj A1 (conj A2 (conj A3 A4)))); [|exact H].
+        intros rid' b' Hi. destruct (HK rid' b' (or_intror Hi)) as (Hlt & Hk). split; [lia|]. destruct Hk as [Hk|Hk]; [exact (R4 b' _ Hk)|right; exact (R2 b' Hlt Hk)].
+      + apply (IH w w' HML); [|exact H]. intros rid' b' Hi. exact (HK rid' b' (or_intror Hi)).
+  Qed.
+
+  Lemma ML_evalall fuel w e id w' :
+    ML w -> PropReg.REGI w -> lookup (w_bevs w) e = Some id -> id <> 0 -> step1 fn rtl fuel w (BevEvalAll e) = (w', None) -> ML w'.
+  Proof.
+    intros HML HR He Hid H. cbn [step1] in H. rewrite He in H. destruct (nth_error (w_evps w) id) as [st|] eqn:Hst; [|discriminate H].
+    change (PropSimLazy.evalall_loop fn rtl fuel id (ep_registry st) w = (w', None)) in H.
+    apply (ML_loop fuel id Hid (ep_registry st) w w' HML); [|exact H].
+    intros rid b Hi. pose proof (HR id st rid b Hst Hi) as Hk. split; [exact (PropReg.bkey_lt0 _ _ _ Hk)|left; exact Hk].
+  Qed.
+
+  (* ---- histories: new properties, assignments, reads, plain observers, evaluator objects, fresh properties bound immediately or
+     through an explicit evaluator, evaluateAll of explicit evaluators ---- *)
+  Definition grow_op5 (w : world) (o : op) : Prop :=
+    match o with
+    | PNew _ _ | PSet _ _ _ | PGet _ | PHasBinding _ | BevNew _ | BevCopy _ _ => True
+    | PObserve _ _ _ _ None => True
+    | PBind p _ m => lookup (w_props w) p = None /\
+                     match m with MImmediate => True | MEvaluator e0 => exists id, lookup (w_bevs w) e0 = Some id /\ id <> 0 end
+    | BevEvalAll e0 => exists id, lookup (w_bevs w) e0 = Some id /\ id <> 0
+    | _ => False
+    end.
+
+  Theorem ML_step fuel w o w' :
+    ML w -> NOEMIT w -> PropReg.REGI w -> grow_op5 w o -> step1 fn rtl fuel w o = (w', None) -> ML w'.
+  Proof.
+    intros HML HNE HR Ho H. pose proof HML as (Hinv & Hna & HS & HM).
+    assert (Hinv' : pinv w') by (apply (step1_pinv fn rtl fuel w o w' None Hinv HNE H); exact I).
+    assert (Same : (forall b, get_bind w' b = get_bind w b) -> w_props w' = w_props w -> w_tables w' = w_tables w -> ML w').
+    { intros G Pp Tt. destruct (ML_lazy_same w w' HML G) as (A1 & A2); [intros y _; unfold envof; rewrite Pp; reflexivity|].
+      split; [exact Hinv'|]. split; [|split; assumption].
+      intros t pos ser label act (sl & fr & al & Hv & Hn). apply (Hna t pos ser label act). exists sl, fr, al. split; [|exact Hn].
+      unfold tview, get_table in *. rewrite <- Tt. exact Hv. }
+    destruct o; cbn [grow_op5] in Ho; try contradiction.
+    - (* PNew *) cbn [step1] in H. destruct (lookup (w_props w) p) eqn:Hp; [discriminate H|]. inversion H; subst w'. apply ML_new_prop; assumption.
+    - (* PSet *) cbn [step1] in H. destruct (lookup (w_props w) p) as [pr|]; [|discriminate H]. destruct (pr_updater pr); [discriminate H|].
+      destruct (mixed_set_helper_keeps_sound fuel w p v w' Hinv Hna HS HM H) as (A1 & A2 & A3 & A4 & _). split; [exact A1|]. split; [exact A2|]. split; assumption.
+    - (* PGet *) cbn [step1] in H. destruct (lookup (w_props w) p); [|discriminate H]. inversion H; subst w'. apply Same; reflexivity.
+    - (* PHasBinding *) cbn [step1] in H. destruct (lookup (w_props w) p); [|discriminate H]. inversion H; subst w'. apply Same; reflexivity.
+    - (* PObserve *) destruct act; [contradiction|]. destruct (ML_observe fuel w p k label h w' HML H) as (A1 & A2 & A3).
+      split; [exact Hinv'|]. split; [exact A3|]. split; assumption.
+    - (* PBind *) destruct Ho as (Hp & Hmode). destruct (ML_bind_fresh fuel w p e m w' HML HNE Hp Hmode H) as (A1 & A2 & A3).
+      split; [exact Hinv'|]. split; [exact A3|]. split; assumption.
+    - (* BevNew *) cbn [step1] in H. destruct (lookup (w_bevs w) e); [discriminate H|]. inversion H; subst w'. apply Same; reflexivity.
+    - (* BevCopy *) cbn [step1] in H. destruct (lookup (w_bevs w) src); [|discriminate H]. destruct (lookup (w_bevs w) dst); [discriminate H|].
+      inversion H; subst w'. apply Same; reflexivity.
+    - (* BevEvalAll *) destruct Ho as (id & He & Hid). exact (ML_evalall fuel w e id w' HML HR He Hid H).
+  Qed.
+
+  Fixpoint run5_ok (fuel : nat) (w : world) (ops : list op) : Prop :=
+    match ops with
+    | [] => True
+    | o :: r => grow_op5 w o /\ snd (step1 fn rtl fuel w o) = None /\ run5_ok fuel (step fn rtl fuel w o) r
+    end.
+
+  Lemma ML_log e w : ML w -> ML (log e w).
+  Proof.
+    intros HML. pose proof HML as (Hinv & Hna & _). destruct (ML_lazy_same w (log e w) HML (fun _ => eq_refl) (fun _ _ => eq_refl)) as (A1 & A2).
+    split; [exact (pinv_views _ _ (views_log e w) Hinv)|]. split; [exact (NOACT_views _ _ (views_log e w) Hna)|]. split; assumption.
+  Qed.
+
+  Theorem ML_reachable fuel : forall ops w, ML w -> NOEMIT w -> PropReg.REGI w -> run5_ok fuel w ops -> ML (fold_left (step fn rtl fuel) ops w).
+  Proof.
+    induction ops as [|o r IH]; intros w HML HNE HR Hok; cbn [fold_left]; [exact HML|]. destruct Hok as (Ho & Hs & Hr).
+    pose proof (PropReg.step_rmono fn rtl fuel w o) as (RM & _).
+    assert (HNE' : NOEMIT (step fn rtl fuel w o)).
+    { unfold step. pose proof (step1_tmono fn rtl fuel w o) as M. destruct (step1 fn rtl fuel w o) as [w1 r1]. cbn [fst] in M.
+      intros t Ht. apply (NOEMIT_tmono _ _ HNE M t). exact Ht. }
+    apply IH; [|exact HNE'|exact (RM HR)|exact Hr].
+    unfold step. destruct (step1 fn rtl fuel w o) as [w1 r1] eqn:H1. cbn [snd] in Hs. subst r1. apply ML_log. exact (ML_step fuel w o w1 HML HNE HR Ho H1).
+  Qed.
+
+  Lemma ML_world0 : ML world0.
+  Proof.
+    split; [exact pinv_world0|]. split; [|split].
+    - intros t pos ser label act (sl & fr & al & Hv & _). unfold tview, get_table, world0 in Hv. cbn in Hv. destruct t; discriminate Hv.
+    - intros b x Hx. unfold get_bind, world0 in Hx. cbn in Hx. destruct b; discriminate Hx.
+    - intros b T (x & Hx & _). unfold get_bind, world0 in Hx. cbn in Hx. destruct b; discriminate Hx.
+  Qed.
+  Lemma NOEMIT_world0 : NOEMIT world0.
+  Proof. intros t (tb & Ht & _). unfold get_table, world0 in Ht. cbn in Ht. destruct t; discriminate Ht. Qed.
+
+  (* every world a growing mixed network reaches: link invariant, observers that do not act, every cache of every evaluator-driven
+     binding right for the current values *)
+  Theorem mixed_reachable_ML fuel ops : run5_ok fuel world0 ops -> ML (run fn rtl fuel ops).
+  Proof. intros Hok. exact (ML_reachable fuel ops world0 ML_world0 NOEMIT_world0 (PropReg.REGI_world0) Hok). Qed.
+
+  (* ... so whenever an evaluator-driven binding is evaluated there (by evaluateAll of its evaluator), it assigns exactly the value of
+     its expression over the current inputs *)
+  Theorem mixed_reachable_evaluation_exact fuel ops b x w' :
+    run5_ok fuel world0 ops -> get_bind (run fn rtl fuel ops) b = Some x -> b_evp x <> 0 ->
+    binding_evaluate fn rtl (set_helper fn rtl fuel) (run fn rtl fuel ops) b = (w', None) ->
+    ML w' /\ exists T t lg, abs_tree (b_root x) = Some T /\
+      eval fn rtl (values (run fn rtl fuel ops)) (b_root x) = (t, inl (A.den F1 F2 F3 (envof (run fn rtl fuel ops)) T), lg).
+  Proof.
+    intros Hok Hb He H. destruct (mixed_reachable_ML fuel ops Hok) as (Hinv & Hna & HS & HM).
+    destruct (abs_tree (b_root x)) as [T|] eqn:HT; [|exfalso; exact (HS b x Hb He HT)].
+    destruct (mixed_lazy_evaluate fuel _ b x T w' Hinv Hna HS HM Hb He HT H) as (A1 & A2 & A3 & A4 & _ & t & lg & E).
+    split; [exact (conj A1 (conj A2 (conj A3 A4)))|]. exists T, t, lg. auto.
   Qed.
 End MixedLazy.
